@@ -199,6 +199,23 @@ def judge(lab, case):
         late = _outcome(lambda: fn["v"](copy.deepcopy(x)))
         if case["res"]["ok"] or case["res"]["cls"] != "KeyNotFound":
             _cmp(bad, "params-at-evaluation", late, case["res"])
+        # the evaluated pipeline is an ordinary function: applying it again gives the same result, and so does
+        # applying it to every element of a list (as the function parameter of the helper step `map`)
+        if case["res"]["ok"]:
+            _cmp(bad, "function-reusable", _outcome(lambda: fn["v"](copy.deepcopy(x))), case["res"])
+            oxs = dict(copy.deepcopy(o), XS=[copy.deepcopy(x), copy.deepcopy(x)])
+            each = _outcome(lambda: (lab.Option("XS") >> w.F.map(p) >> list)(oxs))
+            ev = _dec(case["res"]["v"])
+            if not (each["ok"] and strict_eq(each["v"], [ev, ev])):
+                bad.append(("function-reusable", "map(pipeline) over [x, x] gives %s, expected twice %s" % (each, show(ev))))
+    # a pipeline object has no memory: after being used under other dictionaries (none of its keys present;
+    # all of them present with other values) it yields the specification's result for THIS dictionary
+    w2 = World(lab)
+    p2 = w2.build(term)
+    pipe2 = p2 if isinstance(p2, Pipeline) else Pipeline(p2)
+    _outcome(lambda: pipe2.transform(copy.deepcopy(x), {}))
+    _outcome(lambda: pipe2.transform(copy.deepcopy(x), {k: 900 + i for i, k in enumerate(["P", "Q", "A", "B", "K"])}))
+    _cmp(bad, "reuse", _outcome(lambda: pipe2.transform(copy.deepcopy(x), copy.deepcopy(o))), case["res"])
     if isinstance(p, PipelineStep):
         _cmp(bad, "step-transform", _outcome(lambda: p.transform(copy.deepcopy(x), copy.deepcopy(o))), case["res"])
     ox = dict(copy.deepcopy(o), X=copy.deepcopy(x))
